@@ -118,7 +118,9 @@ def nc_bytes(marker):
 ROOT_NAMES = ["data", "r.nc", "pub", "d", "catalog.xml", "x.csv"]
 INNER_DIRS = ["sub", "a", "d.nc", "data", "10", "9", "catalog.xml", "b.d", "deep"]
 INNER_FILES = ["t.csv", "T.CSV", "n.nc", "u.txt", "noext", ".hid", ".csv", "x.csv.dds", "catalog.xml", "f9.txt", "f10.txt",
-               "f010.txt", "t.csv.json", "m.cdf", "w.nc4", "q.csv.txt", "a.", "mycatalog.xml", "z.html"]
+               "f010.txt", "t.csv.json", "m.cdf", "w.nc4", "q.csv.txt", "a.", "mycatalog.xml", "z.html",
+               # names that END in the letters of a supported extension without the dot in front
+               "oldcsv", "export_csv", "sync", "b.acdf", "xnc4"]
 
 
 LONG_FILE = "L" * 180 + ".csv"
@@ -158,7 +160,8 @@ class Layout:
         self.populate(rng, self.root, depth=0)
         # always at least one supported file and one plain file and one directory at top level
         # (".csv": a hidden file whose whole name is a supported extension; "noext": no extension at all)
-        for name in ("t.csv", "u.txt", ".csv", "noext"):
+        # ("2020_01.csv": a name that starts with a digit next to names that do not — the listing sorts by text/number chunks)
+        for name in ("t.csv", "u.txt", ".csv", "noext", "oldcsv", "2020_01.csv"):
             p = os.path.join(self.root, name)
             if not os.path.exists(p):
                 self.put(p)
@@ -277,7 +280,11 @@ def under(root_segs, segs):
 
 
 def is_supported(handlers, path):
-    return any(re.match(h.extensions, path) for h in handlers)
+    """by what is on disk: the name ends in a dot and one of the handlers' extensions, in any case.  The extensions are
+    read from the handlers' patterns as words; the MEANING (dot + extension at the end of the name) is the documented
+    one and is not taken from the pattern, so that a pattern meaning something else is judged against it."""
+    low = os.path.basename(path).lower()
+    return any(low.endswith("." + e) for e in handler_exts(handlers))
 
 
 def spec_splitext_name(name):
@@ -482,7 +489,10 @@ def handler_exts(handlers):
         pat = h.extensions.pattern if hasattr(h.extensions, "pattern") else h.extensions
         m = re.fullmatch(r"\^\.\*\\\.(?:\(([A-Za-z0-9|]+)\)|([A-Za-z0-9]+))\$", pat)
         if not m:
-            raise common.InfraError("handler pattern %r is not of the modelled form ^.*\\.(a|b)$" % pat)
+            # not the modelled form: read the alternatives loosely; the model (dot + extension) will then disagree with
+            # the code wherever the pattern means something else, which is a broken tie, not an infrastructure error
+            out += [e.lower() for e in re.findall(r"[A-Za-z0-9]+", pat)]
+            continue
         out += [e.lower() for e in (m.group(1) or m.group(2)).split("|")]
     return out
 
